@@ -3,8 +3,10 @@
     hdr <L5: contentType bodyLen userAgent extra stack>     extra : list of [name, value]; stack : list of such lists
         → `ok <list of [name, value]>` the header lines send_content emits, in order
     blocks <L3: userAgent base tree>   base : stack before the code runs; tree : list of block items
-        item = S"c" (request) | S"r" (raise) | L3 S"n" <headers> <list of items>
-        → `ok L4 <raised> <assertFailed> <final stack> <list, per request, of the custom lines + UA line>`
+        item = S"c" (request) | S"r0" … S"r3" (raise an exception of kind 0 = Exception subclass,
+               1 = direct BaseException subclass, 2 = GeneratorExit, 3 = SystemExit) | L3 S"n" <headers> <list of items>
+        → `ok L4 <exit> <assertFailed> <final stack> <list, per request, of the custom lines + UA line>`
+          exit = N (the code ended normally) | I<kind> (that exception came out; 4 = pop_headers' AssertionError)
   `str(value)` is modelled for str, int, bool and None values; anything else answers `err Unmodelled`.
 -/
 import JRV.Driver.Codec
@@ -47,10 +49,21 @@ def hdrC (toks : List String) : String :=
     | _, _ => "err Unmodelled N"
   | _ => "bad-op"
 
+def showExit : Option ExcKind → PyVal
+  | Option.none => .none
+  | some .exception => .int 0
+  | some .baseException => .int 1
+  | some .generatorExit => .int 2
+  | some .systemExit => .int 3
+  | some .assertion => .int 4
+
 mutual
   def block? (fuel : Nat) : PyVal → Option Block
     | .str "c" => some .call
-    | .str "r" => some .raise
+    | .str "r0" => some (.raise .exception)
+    | .str "r1" => some (.raise .baseException)
+    | .str "r2" => some (.raise .generatorExit)
+    | .str "r3" => some (.raise .systemExit)
     | .list [.str "n", h, .list body] =>
       match fuel with
       | 0 => Option.none
@@ -74,7 +87,7 @@ def blocksC (toks : List String) : String :=
     | some b, some bs =>
       let r := runBody b bs
       let perCall := r.seen.map fun st => showLines ((sendContent strOfD "" 0 ua [] st).drop 2)
-      "ok " ++ showVal (.list [.bool r.raised, .bool r.assertFailed, .list (r.stack.map showHDict), .list perCall])
+      "ok " ++ showVal (.list [showExit r.raised, .bool r.assertFailed, .list (r.stack.map showHDict), .list perCall])
     | _, _ => "err Unmodelled N"
   | _ => "bad-op"
 
